@@ -1,6 +1,7 @@
 package nodes
 
 import (
+	"github.com/andydunstall/piko/server/config"
 	"bytes"
 	"errors"
 	"fmt"
@@ -253,8 +254,17 @@ func runC01Cluster(r *rand.Rand, nNodes, requests, churnOps int, sh *core.Shard)
 	// proxy timeout 2 s: a request whose stream sits in the accept backlog of an
 	// upstream that announced go-away is answered 504 after the timeout, well
 	// inside the client's 20 s watchdog
-	nodes, err := StartCluster(nNodes, func(int) NodeOpts {
-		return NodeOpts{ProxyTimeout: 2 * time.Second, GossipInterval: 50 * time.Millisecond}
+	nodes, err := StartCluster(nNodes, func(i int) NodeOpts {
+		// non-default access-log header filters (odd nodes an allow list, even nodes a
+		// block list naming the routing headers): logging configuration must not
+		// change where a request is delivered
+		return NodeOpts{ProxyTimeout: 2 * time.Second, GossipInterval: 50 * time.Millisecond, Mutate: func(c *config.Config) {
+			if i%2 == 1 {
+				c.Proxy.AccessLog.RequestHeaders.AllowList = []string{"User-Agent", "Content-Type"}
+			} else {
+				c.Proxy.AccessLog.RequestHeaders.BlockList = []string{"X-Piko-Forward", "x-piko-endpoint", "Authorization"}
+			}
+		}}
 	})
 	if err != nil {
 		return nil, "start cluster: " + err.Error()
